@@ -175,3 +175,31 @@ PROPS["C07"] = dict(
          "(backend, arm, element type, C, table, threshold).",
     assumptions=["f32 tables hold grid values or -inf (no NaN), so comparisons are exact"],
 )
+
+
+PROPS["C08"] = dict(
+    mc=[
+        dict(name="MC_Discrete_sat_M2", module="MC_Discrete", invariants=["NoUnderestimate", "NoLostHit"], actions=["Choose"],
+             constants=dict(Kernel='"sat"', MaxM=2), quick=dict(MaxCell=4), thorough=dict(MaxCell=7)),
+        dict(name="MC_Discrete_sat_M3", module="MC_Discrete", invariants=["NoUnderestimate", "NoLostHit"], actions=["Choose"],
+             constants=dict(Kernel='"sat"', MaxM=3), quick=dict(MaxCell=1), thorough=dict(MaxCell=3)),
+        dict(name="MC_Discrete_neg_wrap", module="MC_Discrete", invariants=["NoUnderestimate"], expect_violation="NoUnderestimate",
+             constants=dict(Kernel='"wrap"', MaxM=2, MaxCell=3)),
+    ],
+    record=True, trace="Trace_C08", shards=8, release="both",
+    level_text="The theorem behind C08 (saturating sum of rounded-up cells >= floor image of the real score, hence no lost "
+               "hit) is model-checked in exact integer arithmetic over every small matrix, every admissible rounding "
+               "(+0/+1 per cell) and every word, with the wrapping kernel as a negative control. Every recorded 8-bit "
+               "scoring call of the real AVX2 / generic / SSE2 / dispatched (each arm forced) kernels and of "
+               "DiscreteMatrix::score_position, in dev and release builds, is validated by TLC: 8-bit score of every "
+               "position >= the code's own scale() of that position's real score (itself re-derived as the window score), "
+               "no lost hit for logged thresholds, scale monotone, no panic.",
+    level_note="The property is checked as stated, against the matrix's own scale(); whether scale() is the exact floor "
+               "and cells the exact round-up is only reported as a note. MC at M<=3, cells 0..7; real widths 1..40, "
+               "consensus / anti-consensus / near-consensus words planted, wildcards, finite and -inf wildcard columns. "
+               "Trusted: TLC, Json module, grid conversion.",
+    rule="impl->spec: one event per (matrix, sequence, backend, profile) {grid matrix, discretised matrix, real score and "
+         "scale() per position, thresholds with scale(), 8-bit table}; distinct_nontrivial = distinct (backend, arm, C, "
+         "matrix, sequence).",
+    assumptions=["matrices have finite non-wildcard entries on the grid (k/4); wildcard column -inf or finite"],
+)
